@@ -37,14 +37,25 @@ def syncPinned (acl : Acl) : List RawHead → List Entry → SyncOutcome
     else if !h.entry.hashOk || !h.hasHash then .err
     else syncPinned acl hs (h.entry :: acc)
 
-/-- the repaired `Sync`: null and incomplete heads are skipped and not handed to the replicator -/
+/-- the repaired `Sync`: null and incomplete heads, and heads the access controller refuses, are
+skipped and not handed to the replicator -/
 def syncHeads (acl : Acl) : List RawHead → List Entry → SyncOutcome
   | [], acc => .load acc.reverse
   | h :: hs, acc =>
     if !h.complete then syncHeads acl hs acc
-    else if !acl.canAppend h.entry then syncHeads acl hs (h.entry :: acc)
+    else if !acl.canAppend h.entry then syncHeads acl hs acc
     else if !h.entry.hashOk then .err
     else syncHeads acl hs (h.entry :: acc)
+
+/-- `Sync` before the last repair (finding F18): a head the access controller refuses was "discarded"
+but had already been put on the list handed to the replicator, which then fetched it -/
+def syncHeadsLoadsRefused (acl : Acl) : List RawHead → List Entry → SyncOutcome
+  | [], acc => .load acc.reverse
+  | h :: hs, acc =>
+    if !h.complete then syncHeadsLoadsRefused acl hs acc
+    else if !acl.canAppend h.entry then syncHeadsLoadsRefused acl hs (h.entry :: acc)
+    else if !h.entry.hashOk then .err
+    else syncHeadsLoadsRefused acl hs (h.entry :: acc)
 
 /-- a message as the listener loops see it -/
 inductive Decoded where
